@@ -419,7 +419,7 @@ func TestVerifC10Place(t *testing.T) {
 		shards = 1
 	}
 	long := strings.Repeat("n", maxNameLen)
-	var pairs, skips int64
+	var pairs, skips, unaligned int64
 	checkOne := func(m *mappedFile, limit uint32, n int) {
 		start, end := m.place(limit, long[:n])
 		eff := limit
@@ -466,6 +466,16 @@ func TestVerifC10Place(t *testing.T) {
 					continue
 				}
 				checkOne(m, limit, n)
+				// limits that are not a multiple of 32 (a file continued after another writer of the format, which
+				// may count the limit in bytes): a rotating sixteenth of the aligned limits, four offsets each
+				if (limit/32)%16 == uint32(n)%16 {
+					for _, d := range []uint32{1, 4, 16, 31} {
+						if limit != 0 && limit+d < pageBase+vformat.Page {
+							checkOne(m, limit+d, n)
+							unaligned++
+						}
+					}
+				}
 			}
 		}
 		for h := uint32(32); h <= 544; h += 32 { // every header length the library can write
@@ -474,4 +484,5 @@ func TestVerifC10Place(t *testing.T) {
 	}
 	vstats.Note("place_pairs_enumerated", pairs)
 	vstats.Note("place_pairs_with_page_skip", skips)
+	vstats.Note("place_pairs_with_unaligned_limit", unaligned)
 }
